@@ -45,7 +45,7 @@ def r1(cx):
                 term = body.blocks[b].term
                 if term.kind != "switch": continue
                 c = switch_cond(body, du, term)
-                if c.kind == "discr" and any(k == "call" and o is kt for k, o in sl.origins(c.place)) and "Option" in body.ty(c.place.l):
+                if c.kind == "discr" and any(k == "call" and o is kt for k, o in sl.origins(c.place)) and not c.place.p and body.ty(c.place.l).replace("core::", "std::").startswith("std::option::Option<"):
                     some_edges.append(variant_edge(term, 1))
             if not some_edges:
                 bad.append("result of %s is never matched on Some/None" % kt.callee.name); continue
